@@ -180,6 +180,26 @@ func (op _OpcodeType) decodeI(x uint32) (as abi.As, arg *abi.AsArgument, argRaw 
 	for i, ctx := range _AOpContextTable {
 		if ctx.Opcode == op {
 			if ctx.Funct3 == funct3 {
+				if ctx.HasShamt {
+					// SLLI/SRLI/SRAI: funct6 (W 版本是 funct7) 区分指令, 其余位才是 shamt
+					if op == _OpBase_OP_IMM_32 {
+						if ctx.Funct7 != x>>25 {
+							continue
+						}
+						arg.Imm = int32((x >> 20) & 0b_1_1111)
+					} else {
+						if ctx.Funct7>>1 != x>>26 {
+							continue
+						}
+						arg.Imm = int32((x >> 20) & 0b_11_1111)
+					}
+				}
+				if op == _OpBase_SYSTEM && funct3 == 0 {
+					// ECALL/EBREAK 只有 imm 不同
+					if (abi.As(i) == AECALL && imm != 0) || (abi.As(i) == AEBREAK && imm != 1) {
+						continue
+					}
+				}
 				as = abi.As(i)
 				break
 			}
